@@ -83,17 +83,18 @@ Definition or_insert (e : entry) (default : V) : M nat :=
   | Vacant k => vac_insert k default
   end.
 
-(* Entry::or_insert_with / or_default: the closure runs only when vacant *)
+(* Entry::or_insert_with / or_default: the closure runs only when vacant; the VacantEntry (which
+   owns the key) is alive while the closure runs, so a panicking closure destroys the key on unwinding *)
 Definition or_insert_with (e : entry) (f : T -> option V * T) : M nat :=
   match e with
   | Occupied i => occ_into_mut i
-  | Vacant k => v <- call_mk f ;; vac_insert k v
+  | Vacant k => v <- on_unwind (unwind_key E k) (call_mk f) ;; vac_insert k v
   end.
 
 Definition or_insert_with_key (e : entry) (f : K -> T -> option V * T) : M nat :=
   match e with
   | Occupied i => occ_into_mut i
-  | Vacant k => v <- call_mk (f k) ;; vac_insert k v
+  | Vacant k => v <- on_unwind (unwind_key E k) (call_mk (f k)) ;; vac_insert k v
   end.
 
 End EntryOps.
